@@ -495,6 +495,46 @@ def rule_R10(toks, fired):
     return toks
 
 
+def rule_R5(toks, fired):
+    """ref patterns in for loops:  for (&a, b, &c) in IT {B}  ->  for (a_r, b, c_r) in IT { let a = *a_r; let c = *c_r; B }"""
+    i = 0
+    while i < len(toks):
+        t = toks[i]
+        if t.kind == "ident" and t.text == "for":
+            # pattern = tokens up to the top-level `in`
+            j = i + 1
+            while j < len(toks) and not (toks[j].kind == "ident" and toks[j].text == "in"):
+                if toks[j].kind == "punct" and toks[j].text in ("(", "["):
+                    # descend: patterns live inside parens; we scan flat, so do not skip
+                    pass
+                if toks[j].kind == "punct" and toks[j].text == "{":
+                    break
+                j += 1
+            if j < len(toks) and toks[j].text == "in":
+                names = []
+                k = i + 1
+                new_pat = []
+                while k < j:
+                    x = toks[k]
+                    if x.kind == "punct" and x.text == "&":
+                        n = next_code(toks, k + 1)
+                        if toks[n].kind == "ident" and toks[n].text not in ("mut",):
+                            names.append(toks[n].text)
+                            new_pat.append(Tok("ident", toks[n].text + "_r", -1, True))
+                            k = n + 1
+                            continue
+                        raise ExtractError("R5: unsupported reference pattern")
+                    new_pat.append(x)
+                    k += 1
+                if names:
+                    bo = _loop_body_open(toks, i)
+                    lets = synth(" " + " ".join(f"let {n} = *{n}_r;" for n in names))
+                    toks = toks[:i + 1] + new_pat + toks[j:bo + 1] + lets + toks[bo + 1:]
+                    fired["R5"] = fired.get("R5", 0) + len(names)
+        i += 1
+    return toks
+
+
 def _contains_continue(toks, lo, hi):
     """is there a `continue` in lo..hi that belongs to this loop (not to a nested loop / closure)?"""
     i = lo
@@ -544,8 +584,34 @@ def rule_R11(toks, fired):
     return toks
 
 
+def _cfg_element_end(toks, i):
+    """index of the last token of the element (variant / field / match arm / statement) starting at code token i"""
+    j = i
+    while j < len(toks):
+        t = toks[j]
+        if t.kind == "punct":
+            if t.text in ("(", "["):
+                j = match_close(toks, j)
+            elif t.text == "{":
+                j = match_close(toks, j)
+                nx = next_code(toks, j + 1)
+                if nx < len(toks) and toks[nx].text in (",", ";"):
+                    return nx
+                if nx < len(toks) and toks[nx].text in (".", "?"):
+                    j = nx
+                    continue
+                return j
+            elif t.text in (",", ";"):
+                return j
+            elif t.text in CLOSE:
+                return j - 1
+        j += 1
+    return len(toks) - 1
+
+
 def rule_R12(toks, fired):
-    """drop `&mut dyn Write`-style print statements is NOT done here; R12: strip attributes (#[...]) and doc comments inside the item"""
+    """strip attributes (#[...]) inside the item; #[cfg(..)] is evaluated for the crate's default feature set:
+    an element (enum variant, field, match arm, statement) whose cfg is off is dropped, as rustc does"""
     out = []
     i = 0
     while i < len(toks):
@@ -557,20 +623,28 @@ def rule_R12(toks, fired):
             if toks[b].text == "[":
                 be = match_close(toks, b)
                 txt = norm(untok(toks[i:be + 1]))
-                if not txt.startswith("#[cfg"):
+                if not txt.startswith("#[cfg("):
                     fired["R12"] = fired.get("R12", 0) + 1
                     i = be + 1
                     continue
-                else:
-                    raise ExtractError("cfg attribute inside extracted item: " + txt)
+                on = eval_cfg(txt[len("#[cfg("):-2])
+                if on:
+                    fired["cfg_on"] = fired.get("cfg_on", 0) + 1
+                    i = be + 1
+                    continue
+                st = next_code(toks, be + 1)
+                en = _cfg_element_end(toks, st)
+                fired["cfg_off"] = fired.get("cfg_off", 0) + 1
+                i = en + 1
+                continue
         out.append(t)
         i += 1
     return out
 
 
-RULES = {"R1": rule_R1, "R1f": rule_R1f, "R2": rule_R2, "R3": rule_R3, "R4": rule_R4, "R6": rule_R6, "R7": rule_R7,
+RULES = {"R5": rule_R5, "R1": rule_R1, "R1f": rule_R1f, "R2": rule_R2, "R3": rule_R3, "R4": rule_R4, "R6": rule_R6, "R7": rule_R7,
          "R10": rule_R10, "R11": rule_R11, "R12": rule_R12}
-RULE_ORDER = ["R12", "R7", "R6", "R10", "R4", "R3", "R11", "R2", "R1", "R1f"]
+RULE_ORDER = ["R12", "R7", "R6", "R10", "R4", "R3", "R5", "R11", "R2", "R1", "R1f"]
 
 
 def apply_rules(toks, rules, fired):
